@@ -477,6 +477,21 @@ def r10_3(ctx):
         )
     else:
         ctx.ok("R10.3", where(fi), "no suspension between the last resolution of msg_set_as_set and ready.set()")
+    # ... and it is resolved *before* the admission decision as well: would_conflict() / intersect() compare the sets of the
+    # arriving and the running commands, and an unresolved set (None) intersects with nothing - STORE / FETCH / COPY on the
+    # same messages would be admitted side by side.
+    adm = [n.id for n in g.nodes if n.ast is not None and n.kind == "stmt" and any(call_name(c) == "command_can_proceed" for c in calls_in(n.ast))]
+    ctx.require(adm, "management_task: command_can_proceed() not found")
+    gets = [n.id for n in g.nodes if n.ast is not None and n.kind == "stmt" and isinstance(n.ast, ast.Assign) and any(call_name(c) in ("get", "get_nowait") and "task_queue" in norm(call_recv(c) or ast.Name("")) for c in calls_in(n.ast))]
+    ctx.require(gets, "management_task: dequeue of the next command not found")
+    w = None
+    for q in gets:
+        w = w or flow.escapes_without(g, q, lambda n: n in storeset, adm)
+    ctx.paths_explored += 1
+    if w:
+        ctx.bad("R10.3", fi.module, fi.qual, "imap_cmd.msg_set_as_set = ... before command_can_proceed(imap_cmd)", "the arriving command reaches the admission test with its message set unresolved: would_conflict() sees no intersection with the running commands, so a STORE and a FETCH (or COPY) of the same messages run side by side - a FETCH shows the STORE half applied", g.nodes[adm[0]].line, flow.fmt_path(g, w))
+    else:
+        ctx.ok("R10.3", where(fi), "the command's set is resolved before the admission test compares it with the running commands")
 
 
 # ----------------------------------------------------------------------------
